@@ -202,6 +202,76 @@ def h09a(order):
     return fn
 
 
+# ------------------------------------------------------------------------------------ H09c: two atoms, two periodic axes
+def h09c(pbc, nsym):
+    """two atoms inside an orthogonal cell (3,4,5), general position in the periodic plane; radii <= 4/5 and threshold <= 1 keep
+    every bond within the neighbouring cells (|n| <= 1), so the oracle box is complete.  Polynomial real arithmetic (nlsat)."""
+    L = [3, 4, 5]
+
+    def fn(e):
+        cell0 = [[L[0], 0, 0], [0, L[1], 0], [0, 0, L[2]]]
+        per = [k for k in range(3) if pbc[k]]
+        fr = np.empty((2, 3), dtype=object)
+        for i in range(2):
+            for k in range(3):
+                fr[i, k] = e.real(f"g{i}_{k}", lo=0, hi=1, hi_strict=True) if (k in per[:nsym]) else SReal.const([F(1, 4), F(1, 3), F(1, 2)][k])
+        radii = np.array([e.real(f"r{i}", lo=F(1, 5), hi=F(4, 5)) for i in range(2)], dtype=object)
+        thr = e.real("thr", lo=F(1, 5), hi=1)
+        pos = np.dot(fr, const_array(cell0))
+        system = StubAtoms(numbers=[6, 8], positions=pos, cell=const_array(cell0), pbc=pbc)
+        ext = ExtModel(e, [SReal.const(L[0]), SReal.const(L[1]), SReal.const(L[2])])
+        ext.cell0 = cell0
+        exc = None
+        with patched(G, np=NP, get_displacement_tensor=ext, ase=AseProxy), dbscan_stub():
+            try:
+                dim, clusters = G.get_dimensionality(system, thr, radii=radii, return_clusters=True)
+            except Exception as ex:    # noqa: BLE001
+                exc = ex
+
+        def cex(env):
+            fv = lambda x: float(concrete(np.array([x], dtype=object), env)[0])
+            args = dict(numbers=[6, 8], pos=concrete(pos, env), cell=cell0, pbc=list(pbc), radii=[fv(x) for x in radii], thr=fv(thr))
+            msgs = conc_check(**args)
+            return {"key": f"H09c:{cex.label}", "what": f"two atoms, pbc {list(pbc)}: " + "; ".join(msgs[:2]), "replay": dict(kind="dim", **args), "reproduced": bool(msgs)}
+
+        def mk(label):
+            def c(env):
+                cex.label = label
+                return cex(env)
+            return c
+        if exc is not None:
+            e.post("get_dimensionality returns normally", False, mk(f"raises:{type(exc).__name__}"))
+            return
+        # on-path oracle: decide every candidate bond (forks), then a concrete rank
+        reach = thr + radii[0] + radii[1]
+        bonds01 = []
+        for o in itertools.product(*[(-1, 0, 1) if pbc[k] else (0,) for k in range(3)]):
+            v = [(fr[0, k] - fr[1, k] - o[k]) * L[k] for k in range(3)]
+            d2 = sum(x * x for x in v)
+            if bool(d2 <= reach * reach):
+                bonds01.append(o)
+        selfv = []
+        for i in range(2):
+            for o in itertools.product(*[(-1, 0, 1) if pbc[k] else (0,) for k in range(3)]):
+                if any(o):
+                    ln2 = sum((o[k] * L[k]) ** 2 for k in range(3))
+                    rr = thr + 2 * radii[i]
+                    if bool(rr * rr >= ln2):
+                        selfv.append(o)
+        connected = bool(bonds01)
+        e.post("None exactly when the two atoms are not bonded through any image", (dim is None) == (not connected), mk("components"))
+        if connected and dim is not None:
+            vecs = [tuple(a - b for a, b in zip(o, bonds01[0])) for o in bonds01[1:]] + selfv
+            vecs = [v for v in vecs if any(v)]
+            rank = int(np.linalg.matrix_rank(np.array(vecs, dtype=float))) if vecs else 0
+            e.post("value = rank of the lattice of cycles of the periodic bonding network", dim == rank, mk("rank"))
+            e.reach(f"H09c:dim{dim}")
+        else:
+            e.reach("H09c:None")
+        e.sample({"pbc": list(pbc), "symbolic_coordinates_per_atom": nsym, "bonds": bonds01, "result": dim})
+    return fn
+
+
 # ------------------------------------------------------------------------------------ H09b: one atom, every pbc
 def h09b(cellname, pbc):
     from lib import cells as CELLS
@@ -266,19 +336,23 @@ def main(tier, seed, only=None):
     jobs = [("H09a", f"H09a:order{o}", h09a(o)) for o in ([0, 1], [1, 0])]
     cells_b = ["ortho"] if tier == "quick" else ["ortho", "tricl", "plate"]
     jobs += [("H09b", f"H09b:{c}:{''.join('T' if x else 'F' for x in pbc)}", h09b(c, pbc)) for c in cells_b for pbc in CELLS.PBCS]
+    jobs += [("H09c", "H09c:TTF:1", h09c((True, True, False), 1))]
+    if tier == "thorough":
+        jobs += [("H09c", "H09c:TTT:1", h09c((True, True, True), 1)), ("H09c", "H09c:FTT:1", h09c((False, True, True), 1))]
     for fam, name, fn in jobs:
         if only and not any(name.startswith(o) for o in only):
             continue
-        rep.merge_stats(explore(fn, name, timeout_ms=30000, budget_s=1200 if tier == "quick" else 4000, chunk_paths=20), fam)
+        rep.merge_stats(explore(fn, name, timeout_ms=30000, budget_s=1200 if tier == "quick" else 4000, chunk_paths=20, logic="nra" if fam == "H09c" else "lira"), fam)
     if not only:
-        rep.require_reached("H09a:None", "H09a:dim0", "H09a:dim1", "H09b:dim0", "H09b:dim1", "H09b:dim2", "H09b:dim3")
+        rep.require_reached("H09a:None", "H09a:dim0", "H09a:dim1", "H09b:dim0", "H09b:dim1", "H09b:dim2", "H09b:dim3", "H09c:None", "H09c:dim0", "H09c:dim1")
     rep.bounds = {"H09a": "2 atoms at the same height on a line along one periodic axis of an orthogonal cell (pbc TFF): symbolic fractional coordinate, integer lattice shift |s|<=5 per atom, "
                           "symbolic coordinate along a non-periodic axis, symbolic radii in [0.1,3] and threshold in [0.1,4]; both atom orders",
+                  "H09c": "2 atoms inside an orthogonal cell with 2 (thorough: also 3) periodic axes, one symbolic fractional coordinate per atom along a periodic axis, symbolic radii in [0.2,0.8] and threshold in [0.2,1] (bonds reach the neighbouring cells only), nlsat",
                   "H09b": "1 atom anywhere (fractional coordinates in [-3,3]), all 8 pbc combinations, cells " + str(cells_b) + ", symbolic radius and threshold; oracle offsets |n|<=3"}
     rep.stubs = ["ExtModel for matid.geometry.get_displacement_tensor (minimum over the offsets extend_system creates, reported iff <= cutoff) - the behaviour C10/C16 establish for the C++ sources",
                  "DBSCANStub", "StubAtoms", "ase.geometry.wrap_positions proxy"]
     rep.assumptions = ["exact real arithmetic", "C10/C16 for the extension"]
-    rep.outside = ["2 atoms with 2 or 3 periodic axes and general positions (did not finish: square roots of quadratic forms with integer offsets)", "n > 2 atoms",
+    rep.outside = ["2 atoms with two symbolic coordinates each under 2-3 periodic axes (z3 unknown on the disc constraints after ~100 decisions; 465 s for 4 paths)", "lattice shifts with more than one periodic axis", "n > 2 atoms",
                    "GF(2)-versus-integer rank discrepancies (need >= 3 atoms)"]
     return rep.finish()
 
